@@ -192,6 +192,9 @@ func (e *Env) applyModifies(st *State, cx *cenv, m Clause) {
 // evalInvariant evaluates a loop invariant in the current frame (locals visible by source name).
 func (e *Env) evalInvariant(st *State, fr *Frame, ct *Contract, inv Clause) string {
 	vars := e.localVars(st, fr)
+	for k, lv := range fr.loopVars {
+		vars[k] = lv
+	}
 	// idxN: number of completed iterations of range loop N (range index phi + 1)
 	for hb, l := range e.loopInfo(fr.fn).headers {
 		for _, ins := range hb.Instrs {
